@@ -4,7 +4,7 @@
    the typed elements built from the blocks, KyGananciasSolares.txt and NewBDL_O.tbl are covered by
    the correspondence only. *)
 From Coq Require Import NArith QArith Bool List String.
-From CTE Require Import Model.Bdl Model.BdlDoc Model.Kyg Model.Tbl Model.BdlTyped Model.BdlTypedEnv Model.BdlTypedDb Proofs.BdlP Proofs.BdlPreambleP Proofs.KygP Proofs.TblP Proofs.BdlTypedP Proofs.BdlTypedDbP.
+From CTE Require Import Model.Bdl Model.BdlDoc Model.Kyg Model.Tbl Model.BdlTyped Model.BdlTypedEnv Model.BdlTypedDb Proofs.BdlP Proofs.BdlPreambleP Proofs.KygP Proofs.TblP Proofs.BdlTypedP Proofs.BdlTypedDbP Proofs.BdlPolySchedP Proofs.BdlEnvP.
 Import ListNotations.
 
 (* layout never matters: indentation, trailing blanks, CR before LF, blank lines, comment and LIDER
@@ -86,6 +86,30 @@ Proof. exact floor_defaults. Qed.
 (* walls: a written TILT is the wall's tilt (the LOCATION default applies only without it) *)
 Theorem C18_wall_written_tilt_wins : forall b w tk, wall_of b = Ok w -> get_num "TILT" (b_attrs b) = Some tk -> twl_tilt w = NTok tk.
 Proof. exact wall_written_tilt_wins. Qed.
+(* ... and without it: roofs and ceilings 0, floors 180, everything else 90; a floor always has azimuth 180, other
+   elements the written azimuth or 0; position defaults to 0; only interior partitions keep NEXT-TO *)
+Theorem C18_wall_defaults : forall b w, wall_of b = Ok w -> get_num "TILT" (b_attrs b) = None ->
+  twl_tilt w = (if N.eqb (b_type b) CTEGen.BdlTypes.BT_Roof || loc_is w "TOP" then NConst 0 else if loc_is w "BOTTOM" then NConst 180 else NConst 90) /\
+  twl_azimuth w = (if loc_is w "BOTTOM" then NConst 180 else num_or (get_num "AZIMUTH" (b_attrs b)) 0) /\
+  twl_x w = num_or (get_num "X" (b_attrs b)) 0 /\ twl_y w = num_or (get_num "Y" (b_attrs b)) 0 /\ twl_z w = num_or (get_num "Z" (b_attrs b)) 0 /\
+  twl_nextto w = (match twl_bounds w with TB_INTERIOR => get_text "NEXT-TO" (b_attrs b) | _ => None end).
+Proof. exact wall_defaults. Qed.
+Theorem C18_wall_boundary : forall b w, wall_of b = Ok w ->
+  twl_bounds w = (if N.eqb (b_type b) CTEGen.BdlTypes.BT_InteriorWall
+                  then (if match get_text "INT-WALL-TYPE" (b_attrs b) with Some k => str_eqb k (s2l "ADIABATIC") | None => false end then TB_ADIABATIC else TB_INTERIOR)
+                  else if N.eqb (b_type b) CTEGen.BdlTypes.BT_UndergroundWall then TB_GROUND else TB_EXTERIOR).
+Proof. exact wall_boundary. Qed.
+(* spaces: inside the thermal envelope when the file says SI, or when it says nothing and the space is
+   conditioned; use and system conditions default to the SPACE-TYPE name; position and azimuth default to 0 *)
+Theorem C18_space_defaults : forall b s, space_of b = Ok s ->
+  tsp_inside s = (match get_text "perteneceALaEnvolventeTermica" (b_attrs b) with
+                  | Some v => str_eqb v (s2l "SI")
+                  | None => match get_text "TYPE" (b_attrs b) with Some ty => str_eqb ty (s2l "CONDITIONED") | None => false end end) /\
+  Some (tsp_spaceconds s) = (match get_text "SPACE-CONDITIONS" (b_attrs b) with Some c => Some c | None => get_text "SPACE-TYPE" (b_attrs b) end) /\
+  Some (tsp_systemconds s) = (match get_text "SYSTEM-CONDITIONS" (b_attrs b) with Some c => Some c | None => get_text "SPACE-TYPE" (b_attrs b) end) /\
+  tsp_x s = num_or (get_num "X" (b_attrs b)) 0 /\ tsp_y s = num_or (get_num "Y" (b_attrs b)) 0 /\
+  tsp_z s = num_or (get_num "Z" (b_attrs b)) 0 /\ tsp_azimuth s = num_or (get_num "AZIMUTH" (b_attrs b)) 0.
+Proof. exact space_defaults. Qed.
 
 (* lists: every name of a written list of quoted names, and every number of a written list of numbers, comes
    back in order, for any number of items, blanks inside the parentheses and white space (line breaks included:
@@ -175,6 +199,37 @@ Theorem C18_bridge_lengths_block : forall b,
   tb_of b = Ok (mkTBr (b_name b) (get_num "LONG-TOTAL" (b_attrs b)) [] (NConst 0) (NConst 0) None None).
 Proof. exact bridge_lengths_block. Qed.
 
+(* polygons: a vertex written "( x, y )" gives its two coordinates, and V1 .. Vn come back in the order of
+   their numbers whatever their order in the file (the attribute map is sorted by key, V10 before V2) *)
+Theorem C18_vertex_recovered : forall lead g1 g2 trail x y,
+  forallb (N.eqb 32) lead = true -> forallb (N.eqb 32) g1 = true -> forallb (N.eqb 32) g2 = true -> forallb (N.eqb 32) trail = true ->
+  coord_ok x = true -> coord_ok y = true ->
+  point2 (point_text lead g1 g2 trail x y) = Some [x; y].
+Proof. exact vertex_recovered. Qed.
+Theorem C18_polygon_recovered : forall a pts start fuel,
+  (List.length pts < fuel)%nat ->
+  (forall k, (k < List.length pts)%nat -> exists s, lookup_attr (vkey (start + k)) a = Some (VStr s) /\ point2 s = Some (nth k pts [])) ->
+  match lookup_attr (vkey (start + List.length pts)) a with Some (VStr _) => False | _ => True end ->
+  polygon_from fuel start a = Some pts.
+Proof. exact polygon_recovered. Qed.
+(* year schedules: the lists of months, days and weekly schedules come back item by item *)
+Theorem C18_count_list_recovered : forall lead trail g1 g2 ds,
+  forallb (N.eqb 32) lead = true -> forallb (N.eqb 32) trail = true -> all_wsb g1 = true -> all_wsb g2 = true ->
+  ds <> [] -> forallb count_ok ds = true ->
+  u32vec (list_text lead trail g1 g2 ds) = Some (map (fun d => digits_val d 0) ds).
+Proof. exact count_list_recovered. Qed.
+Theorem C18_year_schedule_recovered : forall b kt k l1 t1 a1 b1 l2 t2 a2 b2 l3 t3 a3 b3 ms ds ws,
+  get_text "TYPE" (b_attrs b) = Some kt -> skind_of kt = Some k ->
+  forallb (N.eqb 32) l1 = true -> forallb (N.eqb 32) t1 = true -> all_wsb a1 = true -> all_wsb b1 = true ->
+  forallb (N.eqb 32) l2 = true -> forallb (N.eqb 32) t2 = true -> all_wsb a2 = true -> all_wsb b2 = true ->
+  forallb (N.eqb 32) l3 = true -> forallb (N.eqb 32) t3 = true -> all_wsb a3 = true -> all_wsb b3 = true ->
+  ms <> [] -> forallb count_ok ms = true -> ds <> [] -> forallb count_ok ds = true -> forallb name_item_ok ws = true ->
+  get_text "MONTH" (b_attrs b) = Some (list_text l1 t1 a1 b1 ms) ->
+  get_text "DAY" (b_attrs b) = Some (list_text l2 t2 a2 b2 ds) ->
+  get_text "WEEK-SCHEDULES" (b_attrs b) = Some (list_text l3 t3 a3 b3 (map quoted ws)) ->
+  year_of b = Ok (TYear (squeeze2 (b_name b)) k (map (fun d => digits_val d 0) ds) (map (fun d => digits_val d 0) ms) ws).
+Proof. exact year_schedule_recovered. Qed.
+
 (* NewBDL_O.tbl: an element / a space written as a name line and a values line (any blanks in front of the
    values) is read back value by value *)
 Theorem C18_tbl_element_roundtrip : forall e s1 s2 pre, wf_telem e s1 s2 = true -> all_wsb pre = true ->
@@ -235,4 +290,15 @@ Example C18_lists_example :
   namesvec (list_text (s2l " ") [] [] [10%N; 32%N; 32%N] (map quoted ns)) = ns /\
   f32vec (list_text [] (s2l " ") [] (s2l " ") ts) = Some ts /\
   zip_with fixed_thickness ns ts = [NConst (2 # 100); NTok (s2l "1.15E-01"); NTok (s2l ".04")].
+Proof. vm_compute. repeat split; reflexivity. Qed.
+
+(* non-vacuity: a twelve-vertex outline written out of order (V10 .. V12 sort before V2) comes back in the order
+   of the vertex numbers; a three-span year *)
+Example C18_polygon_example :
+  let pt (i : nat) := (s2l "( " ++ nat_str 5 i ++ s2l ".5, -" ++ nat_str 5 i ++ s2l " )")%list in
+  let a := fold_left (fun m i => attr_insert (vkey i) (pt i) m) [12; 3; 1; 10; 2; 11; 4; 5; 6; 7; 8; 9]%nat [] in
+  map fst a = map vkey [1; 10; 11; 12; 2; 3; 4; 5; 6; 7; 8; 9]%nat /\
+  polygon_from 1000 1 a = Some (map (fun i => [(nat_str 5 i ++ s2l ".5")%list; 45%N :: nat_str 5 i]) [1; 2; 3; 4; 5; 6; 7; 8; 9; 10; 11; 12]%nat) /\
+  forallb count_ok [s2l "5"; s2l "09"; s2l "12"] = true /\
+  u32vec (list_text [] [] [] (s2l " ") [s2l "5"; s2l "09"; s2l "12"]) = Some [5; 9; 12]%N.
 Proof. vm_compute. repeat split; reflexivity. Qed.
